@@ -568,6 +568,8 @@ def fam_eq(tier, seed, extra=()):
         # (a value arm only parses with ONE parenthesised candidate: observation D4 in DESIGN)
         ("match [0; 0] { ([]) => 1, => 2, }", 1), ("match 1.0 { (1) => 1, (1.0) => 2, => 3, }", 2),
         ("match (1, [2]) { ((1, [2])) => 1, => 2, }", 1),
+        ("match [0; 0] { [1], [] => 1, => 2, }", 1), ("match 1.0 { 1, 2 => 1, 2.0, 1.0 => 2, => 3, }", 2),
+        ("f := (v: [int]) -> int { return match v { [1], [1, 2] => 1, [] => 0, => 2, } }; (f([1] + [2]), f([0; 0]), f([3]))", (1, 0, 2)),
         # distinct function values stay distinct whatever they are called: same declared name and signature, made twice
         ("make := (k: int) -> () -> int { f := () -> int { return k }; return f }; a := make(1); b := make(2); (a == b, a != b, a == a, [a] == [b])",
          (False, True, True, False)),
@@ -941,6 +943,12 @@ def fam_order(tier, seed, extra=()):
     out.append(Case("order/match/1", PRE + "r := match t(5) { (t(1)) => t(7), (t(2)) => t(7), x: int => t(8), => t(9), }; (r, *log)",
                     (8, 5128)))
     out.append(Case("order/match/2", PRE + "r := match t(1) { (t(1)) => t(7), (t(2)) => t(8), => t(9), }; (r, *log)", (7, 117)))
+    # several candidates in ONE value arm (grammar: values = expr ("," expr)*): evaluated left to right until the first equal one
+    out.append(Case("order/match/multi/0", PRE + "r := match t(2) { t(1), t(2), t(3) => t(7), => t(9), }; (r, *log)", (7, 2127)))
+    out.append(Case("order/match/multi/1", PRE + "r := match t(1) { t(1), t(2) => t(7), => t(9), }; (r, *log)", (7, 117)))
+    out.append(Case("order/match/multi/2", PRE + "r := match t(5) { t(1), t(2) => t(7), t(3), t(5), t(6) => t(8), => t(9), }; (r, *log)", (8, 512358)))
+    out.append(Case("order/match/multi/3", PRE + "r := match t(4) { (t(1)), (t(2)) => t(7), => t(9), }; (r, *log)", (9, 4129)))
+    out.append(Case("order/match/multi/4", PRE + "f := (a: int, b: int) -> (int, int) { r := match t(a) { t(1), t(b) => t(7), => t(9), }; return (r, *log) }; f(3, 3)", (7, 3137)))
     return out
 
 
@@ -957,6 +965,13 @@ def fam_control(tier, seed, extra=()):
       (2, -1, -1), mode="std")
     c("match/0", "f := (v: int | float | string) -> int { return match v { (1) => 10, (2) => 11, x: int => x, x: float => 20, => 30, } }; "
       "(f(1), f(2), f(3), f(2.5), f(\"a\"))", (10, 11, 3, 20, 30))
+    # value arms with several candidates, and candidates written without parentheses (grammar: values = expr ("," expr)*)
+    c("match/multi_candidates", "f := (v: int) -> int { return match v { (5) => 1, (6), (7) => 3, => 2, } }; (f(5), f(6), f(7), f(8))", (1, 3, 3, 2))
+    c("match/multi_candidates_bare", "f := (v: int) -> int { return match v { 5 => 1, 6, 7 => 3, => 2, } }; (f(5), f(6), f(7), f(8))", (1, 3, 3, 2))
+    c("match/bare_candidate", "f := (v: int) -> int { return match v { 5 => 1, => 2, } }; (f(5), f(6))", (1, 2))
+    c("match/bare_candidate_expression", "f := (v: int, w: int) -> int { return match v { w + 1 => 1, w * 2, w - 1 => 3, => 2, } }; (f(5, 4), f(8, 4), f(3, 4), f(4, 4))", (1, 3, 3, 2))
+    c("match/multi_candidates_strings", "f := (v: string) -> int { return match v { \"a\", \"b\" => 1, \"c\" => 2, => 0, } }; (f(\"a\"), f(\"b\"), f(\"c\"), f(\"d\"))", (1, 1, 2, 0))
+    c("match/multi_candidates_literal_scrutinee", "a := match 6 { (6), (7) => 3, => 2, }; b := match 7 { (6), (7) => 3, => 2, }; c := match 8 { (6), (7) => 3, => 2, }; (a, b, c)", (3, 3, 2))
     c("match/first_wins", "f := (v: int) -> int { return match v { x: int => 1, (5) => 2, => 3, } }; f(5)", 1)
     c("match/value_first", "f := (v: int) -> int { return match v { (5) => 2, x: int => 1, } }; (f(5), f(6))", (2, 1))
     c("match/binding", "f := (v: int | string) -> int | string { return match v { x: int => x * 2, s: string => s + s, } }; (f(4), f(\"ab\"))",
